@@ -2,6 +2,7 @@ package main
 
 import (
 	"fmt"
+	"regexp"
 	"strings"
 )
 
@@ -223,3 +224,7 @@ func rootIsEntry(s string) bool {
 	}
 	return false
 }
+
+// copyDefRe matches the location-wise definition of a memcpy'd heap:
+// (assert (forall ((l Loc)) (! (= (select NEW l) (ite ... (select OLD l))) :pattern ...
+var copyDefRe = regexp.MustCompile(`^\(assert \(forall \(\(l Loc\)\) \(! \(= \(select (\S+) l\) \(ite .*\(select (\S+) l\)\)\) :pattern`)
